@@ -27,3 +27,27 @@ for k, (files, refs, stub) in W.items():
     r = c06.check(case)
     print(k, [(f.signature, f.message[:160]) for f in r.failures])
     json.dump({"property": k[2:5], "signature": None, "case": case}, open(f"/verif/findings/{k}.json", "w"), indent=1)
+
+# ---- C07 witnesses added later
+W2 = {}
+W2["F-C07-2"] = ({"src/m.f90": "module m\nimplicit none\ncontains\nsubroutine beta()\nend subroutine beta\nsubroutine host()\ncall beta()\ncontains\nsubroutine beta()\nend subroutine beta\nend subroutine host\nend module m\n"},
+  [{"scope": ["m", "host"], "ifbody": None, "slot": "calls", "at": "calls", "name": ["beta"], "expect": ["m/host/beta"]}], "")
+W2["F-C07-3"] = ({"src/m.f90": "module m\nuse ext_stub, only: delta\nimplicit none\ninterface gen\nprocedure delta\nend interface gen\nprivate :: delta\nend module m\n",
+                  "src/other.f90": "module other\nimplicit none\ncontains\nsubroutine delta()\nend subroutine delta\nend module other\n"},
+  [{"scope": ["m"], "ifbody": None, "slot": "specific", "at": "gen", "name": "delta", "expect": None}],
+  "module ext_stub\ncontains\nsubroutine delta()\nend subroutine\nend module\n")
+SUBM = lambda a: (f"module {a}\nimplicit none\ninterface\nmodule subroutine work()\nend subroutine work\nend interface\nend module {a}\n",
+                  f"submodule ({a}) impl\ncontains\nmodule subroutine work()\nend subroutine work\nend submodule impl\n",
+                  f"submodule ({a}:impl) deep_{a}\ninteger :: v\nend submodule deep_{a}\n")
+fa, fb = SUBM("moda"), SUBM("modb")
+W2["F-C07-4"] = ({"src/moda.f90": fa[0], "src/moda_impl.f90": fa[1], "src/moda_deep.f90": fa[2],
+                  "src/modb.f90": fb[0], "src/modb_impl.f90": fb[1], "src/modb_deep.f90": fb[2]},
+  [{"scope": ["moda:deep_moda"], "ifbody": None, "slot": "subparent", "at": "deep_moda", "name": "impl", "expect": "moda:impl"},
+   {"scope": ["modb:deep_modb"], "ifbody": None, "slot": "subparent", "at": "deep_modb", "name": "impl", "expect": "modb:impl"},
+   {"scope": ["moda:impl"], "ifbody": None, "slot": "mpiface", "at": "work", "name": "work", "expect": "moda/work"},
+   {"scope": ["modb:impl"], "ifbody": None, "slot": "mpiface", "at": "work", "name": "work", "expect": "modb/work"}], "")
+for k, (files, refs, stub) in W2.items():
+    case = {"files": files, "refs": refs, "stub": stub, "classes": [], "nontrivial": True, "n_orders": 6, "order_seed": 1}
+    r = c06.check(case)
+    print(k, [(f.signature, f.message[:160]) for f in r.failures])
+    json.dump({"property": "C07", "signature": None, "case": case}, open(f"/verif/findings/{k}.json", "w"), indent=1)
